@@ -8,6 +8,7 @@ import (
 
 var Checks = map[string]func(*Env) (int, error){
 	"C06": CheckC06,
+	"C09": CheckC09,
 }
 
 // Replay re-executes a replay file against the current working tree.
@@ -31,6 +32,12 @@ func Replay(e *Env, path string) (int, error) {
 			return 2, err
 		}
 		eng = &c06Engine{e, bin}
+	case "srcsim-c09":
+		bin, err := e.BuildHarness("./harness/srcsim", "srcsim")
+		if err != nil {
+			return 2, err
+		}
+		eng = &c09Engine{e, bin}
 	default:
 		return 2, Troublef("unknown engine %q in %s", rf.Engine, path)
 	}
